@@ -7,6 +7,7 @@ fn main() {
     };
     let a = report::parse_args(&args[1..]);
     match which.to_lowercase().as_str() {
+        "c01" => checks::c01::main(&a),
         "c02" => checks::c02::main(&a),
         other => report::machinery(&format!("unknown check {other}")),
     }
